@@ -1,6 +1,7 @@
 /- C03 workloads: backward operators. -/
 import IbexModel
 import Driver.Proto
+import Driver.OpsExpr
 namespace Ibex.Driver
 open Ibex Ibex.Proto Ibex.Bwd
 
@@ -70,6 +71,25 @@ def opsBwd (op : String) (ins outs : List String) : Option String :=
     | some a, some b =>
       pure (verdictB (sampleOk y fv v1 a && sampleOk y fv v2 b) (if Itv.subset fv y then "consistent-kept" else "inconsistent") "consistent-point-removed")
     | _, _ => pure "FAIL impl-bound-not-a-number"
+  | "bwdv", [o, y, x1, x2, p1, p2], [x1', x2', fl] => do
+    let y ← parseMatItv y; let x1 ← parseMatItv x1; let x2 ← parseMatItv x2
+    let p1 ← parseMatItv p1; let p2 ← parseMatItv p2; let fl ← parseBool fl
+    -- planted (degenerate) arguments as exact rationals
+    let q1 ← p1.mapM? ratOfItv; let q2 ← p2.mapM? ratOfItv
+    let opn := match o with | "vadd" | "madd" => "add" | "vsub" => "sub" | _ => "mul"
+    let img ← Eval.binVal Alg.rat opn q1 q2
+    -- `dot` results are 1x1; shapes are those of the model
+    let consistent := matIn img y && matIn q1 x1 && matIn q2 x2
+    let outs : Option (Mat Itv × Mat Itv) :=
+      if x1' == "E" || x2' == "E" then none else do pure ((← parseMatItv x1'), (← parseMatItv x2'))
+    match outs with
+    | none => pure (if consistent then "FAIL consistent-tuple-removed" else "ok inconsistent-emptied")
+    | some (a, b) =>
+      let contracting := Eval.matSubset a x1 && Eval.matSubset b x2
+      if !contracting then pure "FAIL not-contracting"
+      else if consistent then
+        pure (if matIn q1 a && matIn q2 b && fl then "ok consistent-kept" else "FAIL consistent-tuple-removed")
+      else pure "ok inconsistent"
   | _, _, _ => none
 
 end Ibex.Driver
